@@ -276,6 +276,203 @@ fn one_run(
     }
 }
 
+
+// ---------------------------------------------------------------------------------------
+// process-history independence (C19): a run must give the same history whatever the process
+// executed before it. The determinism re-check compares a run executed by its own worker with
+// the same run executed by a neighbour after a different set of runs; when the two disagree the
+// supervisor arbitrates with fresh processes.
+
+/// digest of one run without statistics, samples or minimisation
+fn quiet_digest(prop: &str, seed: u64, i: u64) -> u64 {
+    let mut scratch = Stats::default();
+    let case = match crate::dispatch::make_case(prop, seed, i, &mut scratch) {
+        Some(c) => c,
+        None => return 0,
+    };
+    let ex = crate::dispatch::execute(&case);
+    match crate::dispatch::judge(&case, &ex) {
+        Err(_) => run_digest(&Some(case), Some(&ex), &[]),
+        Ok(v) => run_digest(&Some(case.clone()), Some(&ex), &v),
+    }
+}
+
+/// `simctl seq <PROP> <seed> r1,r2,...`: execute the runs in this order in one process
+pub fn seq_main(args: &[String]) -> i32 {
+    if args.len() < 3 {
+        eprintln!("seq <PROP> <seed> <r1,r2,...>");
+        return 2;
+    }
+    let prop = args[0].clone();
+    let seed: u64 = args[1].parse().unwrap_or(1);
+    let runs: Vec<u64> = args[2].split(',').filter_map(|x| x.trim().parse().ok()).collect();
+    std::thread::Builder::new()
+        .stack_size(64 << 20)
+        .spawn(move || {
+            for r in runs {
+                let d = quiet_digest(&prop, seed, r);
+                println!("D {} {:016x}", r, d);
+            }
+            0
+        })
+        .unwrap()
+        .join()
+        .unwrap_or(2)
+}
+
+/// digest of the last run of `runs` when they are executed in order in a fresh process
+fn fresh_seq_last(prop: &str, seed: u64, runs: &[u64]) -> Option<u64> {
+    let exe = std::env::current_exe().ok()?;
+    let list: Vec<String> = runs.iter().map(|r| r.to_string()).collect();
+    let out = Command::new(exe)
+        .arg("seq")
+        .arg(prop)
+        .arg(seed.to_string())
+        .arg(list.join(","))
+        .stdin(Stdio::null())
+        .stderr(Stdio::null())
+        .output()
+        .ok()?;
+    let text = String::from_utf8_lossy(&out.stdout).into_owned();
+    let last = text.lines().filter(|l| l.starts_with("D ")).last()?;
+    let mut it = last.split(' ');
+    it.next();
+    it.next();
+    u64::from_str_radix(it.next()?, 16).ok()
+}
+
+#[derive(Clone, Debug, Serialize, Deserialize)]
+pub struct SeqReplay {
+    pub format: u32,
+    /// always "sequence"
+    pub kind: String,
+    pub property: String,
+    pub seed: u64,
+    /// executed in this order in one process; the last one is the run whose history changes
+    pub runs: Vec<u64>,
+    pub expect: Expect,
+}
+
+/// Arbitration of one re-check mismatch. Ok(Some(replay)) = the run depends on what the process
+/// executed before (a property violation for C19); Ok(None) = could not be pinned down;
+/// Err = the simulator itself is not deterministic.
+fn arbitrate(prop: &str, seed: u64, i: u64, nw: u64, total: u64, primary: u64, recheck: u64) -> Result<Option<SeqReplay>, String> {
+    let f1 = fresh_seq_last(prop, seed, &[i]).ok_or_else(|| format!("run {}: fresh process gave no digest", i))?;
+    let f2 = fresh_seq_last(prop, seed, &[i]).ok_or_else(|| format!("run {}: fresh process gave no digest", i))?;
+    if f1 != f2 {
+        return Err(format!("run {}: two fresh processes disagree ({:016x} vs {:016x}): the simulator is not deterministic", i, f1, f2));
+    }
+    let w = i % nw;
+    // what the disagreeing process had executed before run i
+    let mut pred: Vec<u64> = Vec::new();
+    if primary != f1 {
+        let mut j = w;
+        while j < i {
+            pred.push(j);
+            j += nw;
+        }
+    } else if recheck != f1 {
+        let rw = (w + nw - 1) % nw;
+        let mut j = rw;
+        while j < total {
+            pred.push(j);
+            j += nw;
+        }
+        let mut j = w;
+        while j < i {
+            if (j / nw) % 20 == 0 {
+                pred.push(j);
+            }
+            j += nw;
+        }
+    } else {
+        return Ok(None);
+    }
+    let with = |p: &[u64]| -> Option<u64> {
+        let mut l = p.to_vec();
+        l.push(i);
+        fresh_seq_last(prop, seed, &l)
+    };
+    match with(&pred) {
+        Some(d) if d != f1 => {}
+        _ => return Ok(None),
+    }
+    // shrink the predecessor list (bounded number of process launches)
+    let mut budget = 28u32;
+    let mut cur = pred;
+    let mut n = 2usize;
+    while cur.len() > 1 && budget > 0 {
+        let len = cur.len();
+        let chunk = (len + n - 1) / n;
+        let mut reduced = false;
+        // first try keeping a single chunk, then dropping one
+        let mut k = 0;
+        while k < len && budget > 0 {
+            let keep: Vec<u64> = cur[k..(k + chunk).min(len)].to_vec();
+            budget -= 1;
+            if with(&keep).map(|d| d != f1).unwrap_or(false) {
+                cur = keep;
+                n = 2;
+                reduced = true;
+                break;
+            }
+            k += chunk;
+        }
+        if !reduced {
+            if chunk <= 1 {
+                break;
+            }
+            n = (n * 2).min(len);
+        }
+    }
+    let mut runs = cur;
+    runs.push(i);
+    let class = format!("{}:process_history_dependent", prop);
+    Ok(Some(SeqReplay {
+        format: 1,
+        kind: "sequence".to_owned(),
+        property: prop.to_owned(),
+        seed,
+        runs: runs.clone(),
+        expect: Expect {
+            class,
+            message: format!(
+                "run {} gives history digest {:016x} in a fresh process but a different one after runs {:?} in the same process: something survives from one use of the library to the next",
+                i, f1, &runs[..runs.len() - 1]
+            ),
+            digest: format!("{:016x}", f1),
+            real_binary_agrees: None,
+        },
+    }))
+}
+
+fn replay_sequence(path: &str, sr: &SeqReplay) -> i32 {
+    let last = match sr.runs.last() {
+        Some(l) => *l,
+        None => return 2,
+    };
+    let fresh = match fresh_seq_last(&sr.property, sr.seed, &[last]) {
+        Some(d) => d,
+        None => {
+            println!("HARNESS-ERROR: no digest from a fresh process");
+            return 2;
+        }
+    };
+    let mut d = 0;
+    for r in &sr.runs {
+        d = quiet_digest(&sr.property, sr.seed, *r);
+    }
+    println!("run {} after {:?}: digest {:016x}; alone in a fresh process: {:016x}", last, &sr.runs[..sr.runs.len() - 1], d, fresh);
+    if d != fresh {
+        println!("violation class={}\n  {}", sr.expect.class, sr.expect.message);
+        println!("VIOLATION property={} replay={}", sr.property, path);
+        1
+    } else {
+        println!("no violation reproduced");
+        0
+    }
+}
+
 // ---------------------------------------------------------------------------------------
 // known findings
 
@@ -547,8 +744,37 @@ pub fn check_main(args: &[String]) -> i32 {
             None => {}
         }
     }
+    let mut seq_viols: Vec<SeqReplay> = Vec::new();
     if mismatches > 0 {
-        harness_errors.push(format!("{} of {} re-executed runs produced a different history digest", mismatches, rechecks.len()));
+        // arbitrate (a few of) the disagreements with fresh processes
+        let mut bad: Vec<(u64, u64, u64)> = rechecks
+            .iter()
+            .filter_map(|(i, d)| digests.get(i).filter(|x| *x != d).map(|x| (*i, *x, *d)))
+            .collect();
+        bad.sort();
+        let mut explained = 0;
+        for (i, primary, re) in bad.iter().take(2) {
+            match arbitrate(&prop, seed, *i, nw, total, *primary, *re) {
+                Ok(Some(sr)) => {
+                    explained += 1;
+                    if seq_viols.is_empty() {
+                        seq_viols.push(sr);
+                    }
+                }
+                Ok(None) => {}
+                Err(e) => harness_errors.push(e),
+            }
+        }
+        if prop == "C19" && explained > 0 && harness_errors.is_empty() {
+            // a property violation, reported below
+        } else if explained > 0 {
+            harness_errors.push(format!(
+                "{} of {} re-executed runs produced a different history digest; fresh processes agree with each other, so the code under test carries state from one run to the next (see C19)",
+                mismatches, rechecks.len()
+            ));
+        } else {
+            harness_errors.push(format!("{} of {} re-executed runs produced a different history digest", mismatches, rechecks.len()));
+        }
     }
 
     // dead workers become violations of the run they had announced
@@ -592,6 +818,24 @@ pub fn check_main(args: &[String]) -> i32 {
             harness_errors.push(format!("cannot write {}: {}", fname, e));
         }
         reported.insert(m.class.clone(), (m.run, fname.clone(), m.message.clone()));
+    }
+    for sr in &seq_viols {
+        if prop != "C19" {
+            break;
+        }
+        let class = sr.expect.class.clone();
+        if let Some(k) = known_match(&known, &prop, &class) {
+            known_hit.insert(class.clone(), mismatches as u64);
+            println!("KNOWN-FINDING: property={} class={} runs={} what={}", prop, class, mismatches, k.what);
+            continue;
+        }
+        let last = *sr.runs.last().unwrap_or(&0);
+        let fname = format!("{}/{}-{}-{:016x}.json", dir, seed, last, fnv1a(class.as_bytes()));
+        if let Err(e) = std::fs::write(&fname, serde_json::to_string_pretty(sr).unwrap()) {
+            harness_errors.push(format!("cannot write {}: {}", fname, e));
+        }
+        stats.violations.insert(class.clone(), mismatches as u64);
+        reported.insert(class, (last, fname, sr.expect.message.clone()));
     }
     for (class, (run, fname, msg)) in &reported {
         println!("violation class={} first_run={} count={}", class, run, stats.violations.get(class).cloned().unwrap_or(1));
@@ -708,6 +952,11 @@ pub fn replay_main(args: &[String]) -> i32 {
                 return 2;
             }
         };
+        if let Ok(sr) = serde_json::from_str::<SeqReplay>(&text) {
+            if sr.kind == "sequence" {
+                return replay_sequence(&path, &sr);
+            }
+        }
         let case: Case = match serde_json::from_str(&text) {
             Ok(c) => c,
             Err(e) => {
